@@ -10,7 +10,7 @@ def scenarios(tier, rng):
     n = 60 if tier == "quick" else 400
     for structured in (False, True):
         for fs in scen.small_trees(structured, rng, n):
-            for lockkind, uc in (("absent", None), ("valid100", None), ("valid100", False), ("maxm1", None)):
+            for lockkind, uc in (("absent", None), ("valid100", None), ("valid100", False), ("maxm1", None), ("valid_doc100", None)):
                 if lockkind == "maxm1" and rng.random() < 0.7:
                     continue
                 if lockkind != "absent" and rng.random() < 0.5 and tier == "quick":
